@@ -446,16 +446,18 @@ example : labelPixel [5] [1] = .ok 5 := by decide
 
 "Absent from the object" means **unknown to the object's reference tables**, for all three stack entry points
 (`missingRefused`): by source instance an instance the object does not reference (`st.refs`, its `InstanceUIDs` table);
-by source frame an unreferenced instance, or a frame number above the highest referenced one; by dimension index values
+by source frame an instance no frame derives from (`st.frameSrcs`; an instance that is merely *listed* in
+ReferencedSeriesSequence does not count — `listed_but_not_source_is_unknown_by_frame`), or a frame number above the highest
+referenced one; by dimension index values
 a position no frame has.  A *referenced* source without any frame (its plane was empty and omitted) is known: it reads as
 empty without any assertion — that is what the library documents and does. -/
 
 /-- **Unknown ⇒ refused unless asserted**, spelled out per entry point in terms of the object: a requested instance the
-object does not reference; a frame request for an unreferenced instance or for a number above every referenced frame
-number; index values no stored frame has. -/
+object does not reference; a frame request for an instance no frame derives from or for a number above every referenced
+frame number; index values no stored frame has. -/
 theorem unknown_source_refused (st : Stored) (rq : Req) :
     (∀ k ∈ rq.keys, k ∉ st.refs → ∃ e, SegRead.read st .bySource false rq = .error e) ∧
-    (∀ uid, uid ∉ st.refs → ∃ e, SegRead.read st (.frame uid) false rq = .error e) ∧
+    (∀ uid, uid ∉ st.frameSrcs → ∃ e, SegRead.read st (.frame uid) false rq = .error e) ∧
     (∀ uid, ∀ k ∈ rq.keys, st.frames ≠ [] → (∀ f ∈ st.frames, f.key < k) →
       ∃ e, SegRead.read st (.frame uid) false rq = .error e) ∧
     (∀ k ∈ rq.keys, (∀ f ∈ st.frames, f.key ≠ k) → ∃ e, SegRead.read st .div false rq = .error e) := by
@@ -466,7 +468,7 @@ theorem unknown_source_refused (st : Stored) (rq : Req) :
     exact ⟨k, hk, by simpa using hn⟩
   · intro uid hn
     apply read_missing_refused
-    have : st.refs.contains uid = false := by simpa using hn
+    have : st.frameSrcs.contains uid = false := by simpa using hn
     simp only [missingRefused, this, Bool.not_false, Bool.true_or]
   · intro uid k hk hne hall
     apply read_missing_refused
@@ -545,13 +547,25 @@ theorem referenced_frameless_reads_empty (st : Stored) (rq : Req) (h1 : rq.segs 
         simp [this]
       rw [this]
 
-/-- by source frame with an instance the object does not reference, under the assertion: no frame is used, every
-plane is empty -/
-theorem unreferenced_instance_asserted_reads_empty (st : Stored) (uid : Nat) (hn : uid ∉ st.refs) (rq : Req)
+/-- **listed is not enough**: by source frame, an instance that is among the referenced instances (`st.refs`) but from which
+no frame derives is refused without the assertion, although the same instance requested by source instance is known and
+reads as empty -/
+theorem listed_but_not_source_is_unknown_by_frame (st : Stored) (uid : Nat) (hl : uid ∈ st.refs) (hn : uid ∉ st.frameSrcs)
+    (rq : Req) : (∃ e, SegRead.read st (.frame uid) false rq = .error e) ∧ missingRefused st .bySource [uid] = false := by
+  constructor
+  · apply read_missing_refused
+    have : st.frameSrcs.contains uid = false := by simpa using hn
+    simp only [missingRefused, this, Bool.not_false, Bool.true_or]
+  · simp only [missingRefused, List.any_cons, List.any_nil, Bool.or_false]
+    simpa using hl
+
+/-- by source frame with an instance no frame derives from, under the assertion: no frame is used, every plane is
+empty -/
+theorem unreferenced_instance_asserted_reads_empty (st : Stored) (uid : Nat) (hn : uid ∉ st.frameSrcs) (rq : Req)
     (h1 : rq.segs ≠ []) (h2 : rq.keys ≠ []) (h3 : ∀ k ∈ rq.keys, k ≠ 0) (hu : framesUnique st = true) :
     SegRead.read st (.frame uid) true rq = readCore { st with frames := [] } rq := by
   have := read_eq_readCore st (.frame uid) true rq h1 h2 h3 hu (Or.inl rfl)
-  have hc : st.refs.contains uid = false := by simpa using hn
+  have hc : st.frameSrcs.contains uid = false := by simpa using hn
   simp only [effective, hc, Bool.false_eq_true, ↓reduceIte] at this
   exact this
 
